@@ -3,6 +3,8 @@
   sqliteNonzeroLits / mysqlNonzeroLits / oracleNonzeroLits / pgNonzeroLits : the literal list of `JSON_NONZERO` (`… NOT IN (…)`)
   jsonPathRe : the pattern text of `sqlite.json_path_re`
   identRe    : the pattern text of `utils._ident_re`
+  traverseCaught / traverseCatchesTypeError : the exception names in `_traverse`'s except clause
+  arraySliceClampsNegative : probed on the real `py_array_slice`
   sqliteNonzeroShape : 'plain' when JSON_NONZERO is `builder(expr), ' NOT IN (...)'` (no COALESCE) — the shape the model `jsonNonzero` mirrors
 
 Props/C29.lean proves `baseLits ⊆ sqliteNonzeroLits ⊆ baseLits ++ floatZeroLits` and `jsonPathRe = <the regex the scanner was written for>`
@@ -70,6 +72,33 @@ def module_regex(path, name):
     raise ValueError('%s = re.compile(<str>) not found in %s' % (name, path))
 
 
+def traverse_caught(path):
+    """exception names of the `except` clause(s) inside `_traverse`"""
+    tree = ast.parse(open(path, encoding='utf-8').read())
+    for node in tree.body:
+        if isinstance(node, ast.FunctionDef) and node.name == '_traverse':
+            names = []
+            for h in [h for t in ast.walk(node) if isinstance(t, ast.Try) for h in t.handlers]:
+                if h.type is None: names.append('BaseException')
+                else: names += [n.id for n in ast.walk(h.type) if isinstance(n, ast.Name)]
+            return names
+    raise ValueError('_traverse not found')
+
+
+def probe_array_slice(repo):
+    """'unclamped' (array[start:stop] as is), 'clamped' (a negative bound is taken as 0) or 'other' — probed on the real function"""
+    import subprocess, sys, json
+    code = ("import json\nfrom pony.orm.dbproviders import sqlite as s\n"
+            "print(json.dumps([s.py_array_slice('[1,2,3]', -2, 2), s.py_array_slice('[1,2,3]', 0, -1), s.py_array_slice('[1,2,3]', None, None)]))")
+    env = dict(os.environ, PYTHONPATH=repo)
+    p = subprocess.run([sys.executable, '-c', code], env=env, stdout=subprocess.PIPE, stderr=subprocess.PIPE, text=True, timeout=120)
+    if p.returncode != 0: raise ValueError('probe of py_array_slice failed: ' + p.stderr[-200:])
+    got = json.loads(p.stdout.strip().splitlines()[-1])
+    if got == ['[2]', '[1,2]', '[1,2,3]']: return 'unclamped'
+    if got == ['[1,2]', '[]', '[1,2,3]']: return 'clamped'
+    return 'other'
+
+
 def regenerate(repo, lean_dir):
     out_path = os.path.join(lean_dir, 'PonyVerif', 'Gen', 'JsonLits.lean')
     info = {}
@@ -81,7 +110,10 @@ def regenerate(repo, lean_dir):
         pg, _ = nonzero_lits(os.path.join(prov, 'postgres.py'), 'PGSQLBuilder')
         path_re, path_flags = module_regex(os.path.join(prov, 'sqlite.py'), 'json_path_re')
         ident_re, _ = module_regex(os.path.join(repo, 'pony', 'utils', 'utils.py'), '_ident_re')
-        info = {'sqlite': sq, 'mysql': my, 'oracle': orc, 'postgres': pg, 'sqlite_shape': sq_shape, 'json_path_re': path_re,
+        caught = traverse_caught(os.path.join(prov, 'sqlite.py'))
+        slice_kind = probe_array_slice(repo)
+        if slice_kind == 'other': raise ValueError('py_array_slice is neither array[start:stop] nor its clamped variant')
+        info = {'traverse_caught': caught, 'array_slice': slice_kind, 'sqlite': sq, 'mysql': my, 'oracle': orc, 'postgres': pg, 'sqlite_shape': sq_shape, 'json_path_re': path_re,
                 'json_path_re_flags': path_flags, 'ident_re': ident_re}
         def lst(l): return '[' + ', '.join(lean_str(x) for x in l) + ']'
         text = '\n'.join([
@@ -95,6 +127,9 @@ def regenerate(repo, lean_dir):
             'def jsonPathRe : String := ' + lean_str(path_re),
             'def jsonPathReFlags : String := ' + lean_str(path_flags),
             'def identRe : String := ' + lean_str(ident_re),
+            'def traverseCaught : List String := ' + lst(caught),
+            'def traverseCatchesTypeError : Bool := ' + ('true' if ('TypeError' in caught or 'Exception' in caught or 'BaseException' in caught) else 'false'),
+            'def arraySliceClampsNegative : Bool := ' + ('true' if slice_kind == 'clamped' else 'false'),
             'end PonyVerif.Gen.JsonLits', ''])
         ok, err = True, None
     except Exception as e:
